@@ -17,6 +17,9 @@ def jsonable(v, depth=0):
     if v is None or isinstance(v, (bool, int, str, float)):
         return v
     if isinstance(v, (bytes, bytearray)):
+        if len(v) > 8192:
+            import hashlib
+            return {'bytes_len': len(v), 'sha256': hashlib.sha256(bytes(v)).hexdigest()}
         return {'bytes': list(v)}
     if isinstance(v, (list, tuple)):
         return [jsonable(x, depth + 1) for x in v]
@@ -55,12 +58,33 @@ def run(req):
     out = {'pre_ok': c.pre_ok, 'missing_inputs': c.missing}
     if not c.pre_ok:
         return out
-    if hasattr(K, 'real_call'):
+    from pyvc.contract import Fragment, real_fragment
+    if isinstance(call.fn, Fragment):
+        fn = real_fragment(call.fn)
+        args = []
+        call.kwargs = {}
+    elif hasattr(K, 'real_call'):
         fn = lambda *a, **k: K.real_call(c, call)  # noqa
         args = []
     else:
         fn = resolve_real(K.target)
         args = ([call.self_obj] if call.self_obj is not None else []) + list(call.args)
+    patched = []
+    for qual, repl in (getattr(K, 'real_hooks', None) or {}).items():
+        import importlib as _il
+        parts = qual.split('.')
+        owner = None
+        for i in range(len(parts) - 1, 0, -1):
+            try:
+                owner = _il.import_module('.'.join(parts[:i]))
+                rest = parts[i:]
+                break
+            except ImportError:
+                continue
+        for pth in rest[:-1]:
+            owner = getattr(owner, pth)
+        patched.append((owner, rest[-1], getattr(owner, rest[-1])))
+        setattr(owner, rest[-1], repl)
     try:
         res = fn(*args, **call.kwargs)
         if hasattr(res, '__next__'):
@@ -73,6 +97,8 @@ def run(req):
         oc.exc_obj = e
         oc.exc_names = [qn(k) for k in type(e).__mro__]
         out['traceback'] = traceback.format_exc()[-1500:]
+    for owner, name, orig in patched:
+        setattr(owner, name, orig)
     out['outcome'] = {'kind': oc.kind, 'exc': oc.exc, 'result': jsonable(oc.result)}
     failed = []
     clauses = {}
